@@ -488,7 +488,8 @@ def evalReadouts : List (Name × Fn) → Env → Except Err Env
     let v ← f.calc env
     evalReadouts rest (env.set k v)
 
-/-- `_get_args` including the final `args.pop(data)` -/
+/-- `_get_args` including the final `args.pop(data)`: what `get_args`, `get_right_hand_side` and `__call__`
+    all work with (a state-dependent coefficient that names a data set therefore raises KeyError) -/
 def rawArgs (c : Content) (cache : Cache) (vars : List (Name × Rat)) (t : Rat) : Except Err Env := do
   let env ← getArgsEnv c cache vars t
   pure (env.filter (fun kv => !(omKeys c.data).contains kv.1))
@@ -512,7 +513,7 @@ def answer (c : Content) (cache : Cache) : Query → Except Err Ans
       fun k => do pure (k, ← Env.get raw k)
     pure (.assoc l)
   | .rhs vals t => do
-    let dep ← getArgsEnv c cache (stateOf c cache vals) t
+    let dep ← rawArgs c cache (stateOf c cache vals) t
     let d ← rhsFromArgs cache (omKeys c.vars) dep
     pure (.assoc d)
   | .call t vals =>
@@ -520,7 +521,7 @@ def answer (c : Content) (cache : Cache) : Query → Except Err Ans
     if xs.length != cache.varNames.length then
       .error (.valueError "zip() argument lengths differ")
     else do
-      let dep ← getArgsEnv c cache (cache.varNames.zip xs) t
+      let dep ← rawArgs c cache (cache.varNames.zip xs) t
       let dxdt ← rhsFromArgs cache cache.varNames dep
       let l ← cache.varNames.mapM fun k => Env.get dxdt k
       pure (.rats l)
